@@ -262,6 +262,9 @@ public:
 	{
 		lock_guard l(data_mutex_);
 		dispatch_queue_.push_back(completion_handler(h));
+#ifdef ARTYOM_BEILIS_CPPCMS_VERIF
+		if(polling_) CPPCMS_VERIF_PROBE("io_service.post_while_polling_wakes_loop");
+#endif
 		if(polling_)
 			wake();
 	}
@@ -337,6 +340,7 @@ public:
 
 		timer_events_type::iterator evptr = timer_events_index_[event_id];
 		
+		CPPCMS_VERIF_PROBE("io_service.cancel_found_timer_armed");
 		completion_handler evdisp(evptr->second.h,system::error_code(aio_error::canceled,aio_error_cat));
 		dispatch_queue_.push_back(evdisp);
 		timer_events_.erase(evptr);
@@ -632,6 +636,7 @@ private:
 			
 			if(evs[i].fd == interrupter_.get_fd()) {
 				interrupter_.clean();
+				CPPCMS_VERIF_PROBE("io_service.woken_by_interrupter");
 				continue;
 			}
 			
